@@ -52,7 +52,11 @@ def _migrate_v1_to_v2(root_directory):
     current_workspace_name = cfg.get("workspace_dir")
     if current_workspace_name is not None:
         if current_workspace_name != "workspace":
-            current_workspace = os.path.join(root_directory, current_workspace_name)
+            # Schema version 1 expanded environment variables in the workspace
+            # directory.
+            current_workspace = os.path.join(
+                root_directory, os.path.expandvars(current_workspace_name)
+            )
             new_workspace = os.path.join(root_directory, "workspace")
             if os.path.exists(new_workspace):
                 raise RuntimeError(
